@@ -46,7 +46,8 @@ PPL::Grid::Grid(const Grid& y, Complexity_Class)
     gen_sys = y.gen_sys;
   }
   else {
-    if (y.congruences_are_up_to_date()) {
+    if (y.congruences_are_up_to_date() || y.marked_empty()) {
+      // A marked empty grid holds the inconsistent congruence in `con_sys'.
       con_sys = y.con_sys;
     }
     else {
